@@ -35,6 +35,7 @@ type c03Frame struct {
 	seq      int32
 	tag      string
 	veto     string // stage at which the plugin vetoes this frame ("" none)
+	panicRep bool   // a PreWriteReply plugin panics while the reply to this frame is being prepared
 	expectH  bool   // a handler may run
 	sent     bool
 	handlerN int
@@ -116,6 +117,7 @@ func runC03(t *testing.T, seed uint64, m *Mask) *Report {
 			if r.Chance(0.15) {
 				f.veto = vetoStages[r.Intn(len(vetoStages))]
 			}
+			f.panicRep = f.kind == "call" && r.Chance(0.08)
 			// duplicate sequence numbers now and then
 			if j > 0 && r.Chance(0.1) {
 				f.seq = frames[len(frames)-1].seq
@@ -150,7 +152,15 @@ func runC03(t *testing.T, seed uint64, m *Mask) *Report {
 			}
 			return nil
 		}}
-		srv := e.NewPeer("srv", erpc.PeerConfig{}, rec)
+		// a plugin with a bug of its own: it panics while the reply to some calls is prepared - whatever the
+		// outcome of the call was (OK, handler status, not found, bad body, veto), the call is still answered once
+		panicBySeq := map[int32]bool{}
+		for _, f := range frames {
+			if f.panicRep && !m.opDropped(f.idx) {
+				panicBySeq[f.seq] = true
+			}
+		}
+		srv := e.NewPeer("srv", erpc.PeerConfig{}, rec, &c03Panicker{seqs: panicBySeq})
 		rt := e.RegisterStd(srv)
 		weird, big := "/std/weird", "/std/big"
 		unknownN := 0
@@ -382,4 +392,17 @@ func runC03(t *testing.T, seed uint64, m *Mask) *Report {
 	})
 	rep.Sample = fmt.Sprintf("%d frames on %d raw sessions, first: %+v", len(frames), nSess, *frames[0])
 	return finish(rep, out)
+}
+
+// c03Panicker is a PreWriteReply plugin that panics for the replies of selected sequence numbers.
+type c03Panicker struct{ seqs map[int32]bool }
+
+func (p *c03Panicker) Name() string { return "panicker" }
+func (p *c03Panicker) PreWriteReply(c erpc.WriteCtx) *erpc.Status {
+	if p.seqs[c.Output().Seq()] {
+		delete(p.seqs, c.Output().Seq()) // once: the recovery path writes a reply of its own
+		var body *string
+		_ = *body
+	}
+	return nil
 }
